@@ -453,13 +453,13 @@ static void epilogue(void) {
     for (i = 0; i < Q_N; i++) if (owed[i] != got[i]) VIOL("callbacks-owed", "%s owed=%d delivered=%d", qname[i], owed[i], got[i]);
     r = uv_loop_close(loop);
     OUT("final loop_close %s", en(r));
-    if (r != 0) VIOL("loop-close", "uv_loop_close returned %s", en(r));
+    if (r != 0) { VIOL("loop-close", "uv_loop_close returned %s", en(r)); loop_inited = 2; }
   }
   uv_library_shutdown();
   atomic_store(&armed, 0);
   if (stalled && !(atomic_load(&fired_hard) || atomic_load(&fired_alloc)))
     VIOL("stall", "%s", "scenario did not complete although only transparent faults (or none) were injected");
-  if (nlive != 0) {
+  if (nlive != 0 && loop_inited != 2) {
     size_t tot = 0; unsigned h;
     for (h = 0; h < LIVECAP; h++) if (live[h] != NULL && live[h] != (void*) 1) tot += livesz[h];
     VIOL("alloc-leak", "%u blocks (%zu bytes) obtained through the libuv allocator are still live", nlive, tot);
@@ -469,7 +469,7 @@ static void epilogue(void) {
     VIOL("lsan-leak", "%s", "LeakSanitizer reports unreachable blocks after the scenario");
   quiet_depth--;
   fd_snapshot(fdsnap1, sizeof fdsnap1);
-  if (strcmp(fdsnap0, fdsnap1)) VIOL("fd-table", "before[%s] after[%s]", fdsnap0, fdsnap1);
+  if (strcmp(fdsnap0, fdsnap1) && loop_inited != 2) VIOL("fd-table", "before[%s] after[%s]", fdsnap0, fdsnap1);
   rm_rf(scratch);
   { unsigned s, k; int f;
     OUT("count alloc %u", atomic_load(&nalloc));
